@@ -130,6 +130,7 @@ type explorer struct {
 	stop     func(*ssa.BasicBlock) bool
 	raw      bool // do not rewrite inlined helper bodies into call form (used while the helper patterns are derived)
 	pureMemo bool // a condition that reads no memory and calls nothing is decided once per path, by its rendering
+	inline   map[string]bool // recorded loop-free functions this rule reads inline as well (by reference name)
 	maxPaths int
 	out      []*pathOutcome
 	overflow bool
@@ -146,6 +147,7 @@ type exState struct {
 	frames  []exFrame              // inlined helper calls in progress (innermost last)
 	resume  *exFrame               // set when an inlined helper returned: continue its caller after the call
 	tuples  map[ssa.Value][]symVal // results of inlined multi-result helpers
+	spill   map[*ssa.Alloc]string  // inlined helpers: the stack copy of a struct parameter goes by the argument's name
 }
 
 // exFrame: where to continue in the caller when an inlined helper returns.
@@ -190,6 +192,12 @@ func (st *exState) clone() *exState {
 		}
 	}
 	n.po = pathOutcome{conds: append([]condTaken(nil), st.po.conds...), calls: append([]callRec(nil), st.po.calls...), stores: append([]storeRec(nil), st.po.stores...), seq: append([]int(nil), st.po.seq...)}
+	if st.spill != nil {
+		n.spill = make(map[*ssa.Alloc]string, len(st.spill))
+		for k, v := range st.spill {
+			n.spill[k] = v
+		}
+	}
 	return n
 }
 
@@ -331,6 +339,13 @@ func (e *explorer) walk(st *exState, b, pred *ssa.BasicBlock) {
 					} else {
 						next = b.Succs[1]
 					}
+				} else if d, ok := st.decExpr[idKey(in.Cond)]; ok && idKey(in.Cond) != "" {
+					// the same comparison of the same SSA values written twice (go/ssa does not merge them)
+					if d {
+						next = b.Succs[0]
+					} else {
+						next = b.Succs[1]
+					}
 				} else if d, ok := st.decExpr[cv.expr]; ok && e.pureMemo && pureCond(in.Cond, 0) {
 					if d {
 						next = b.Succs[0]
@@ -354,6 +369,13 @@ func (e *explorer) walk(st *exState, b, pred *ssa.BasicBlock) {
 						_ = neg
 					}
 					st.decided[in.Cond] = false
+					ik := idKey(in.Cond)
+					if ik != "" {
+						if st.decExpr == nil {
+							st.decExpr = map[string]bool{}
+						}
+						st.decExpr[ik] = false
+					}
 					if pm {
 						st.decExpr[cv.expr] = false
 					}
@@ -365,6 +387,9 @@ func (e *explorer) walk(st *exState, b, pred *ssa.BasicBlock) {
 					}
 					st2 := st.clone()
 					st.decided[in.Cond] = true
+					if ik != "" {
+						st.decExpr[ik] = true
+					}
 					if pm {
 						st.decExpr[cv.expr] = true
 					}
@@ -435,12 +460,30 @@ func (e *explorer) walk(st *exState, b, pred *ssa.BasicBlock) {
 					delete(st.decExpr, "l:!"+sr.addr)
 				}
 			case ssa.CallInstruction:
-				if g := in.Common().StaticCallee(); g != nil && len(st.frames) < 2 && e.c.freshHelper(g) {
+				if g := in.Common().StaticCallee(); g != nil && len(st.frames) < 2 && (e.c.freshHelper(g) || (e.inline != nil && e.inline[calleeName(e.c, in)] && g.Blocks != nil && loopFree(g))) {
 					// a helper the reference tree does not know (code extracted by the change under analysis) is read
 					// as if it were still inline
 					for k, p := range g.Params {
 						if k < len(in.Common().Args) {
 							st.env[p] = e.val(st, in.Common().Args[k])
+						}
+					}
+					// a struct parameter is copied to the stack on entry; conditions on its fields are rendered with
+					// the ARGUMENT's name, so that liesOn(p1, a, b) and liesOn(p2, a, b) read differently
+					for _, ins := range g.Blocks[0].Instrs {
+						sp, ok := ins.(*ssa.Store)
+						if !ok {
+							continue
+						}
+						al, ok1 := sp.Addr.(*ssa.Alloc)
+						pp, ok2 := sp.Val.(*ssa.Parameter)
+						if ok1 && ok2 {
+							if ax := st.env[pp].expr; simpleLoc(ax) {
+								if st.spill == nil {
+									st.spill = map[*ssa.Alloc]string{}
+								}
+								st.spill[al] = ax
+							}
 						}
 					}
 					var cv ssa.Value
@@ -635,6 +678,9 @@ func (e *explorer) addrExpr(st *exState, a ssa.Value) string {
 	case *ssa.IndexAddr:
 		return e.locBase(st, a.X) + "[" + e.val(st, a.Index).expr + "]"
 	case *ssa.Alloc:
+		if n, ok := st.spill[a]; ok {
+			return n
+		}
 		if a.Comment != "" {
 			return e.cn(a.Comment)
 		}
@@ -643,12 +689,29 @@ func (e *explorer) addrExpr(st *exState, a ssa.Value) string {
 	return "*" + e.val(st, a).expr
 }
 
+// simpleLoc: the rendering is a plain location (identifier, field path, element, dereference), not a computed value.
+func simpleLoc(x string) bool {
+	if x == "" {
+		return false
+	}
+	for i := 0; i < len(x); i++ {
+		ch := x[i]
+		if !(isIdentChar(ch) || ch == '.' || ch == '[' || ch == ']' || ch == '*') {
+			return false
+		}
+	}
+	return !(x[0] >= '0' && x[0] <= '9')
+}
+
 // locBase renders the object whose field/element is addressed: a pointer value p addresses fields of "p".
 func (e *explorer) locBase(st *exState, x ssa.Value) string {
 	switch x := x.(type) {
 	case *ssa.FieldAddr, *ssa.IndexAddr:
 		return e.addrExpr(st, x)
 	case *ssa.Alloc:
+		if n, ok := st.spill[x]; ok {
+			return n
+		}
 		if x.Comment != "" {
 			return e.cn(x.Comment)
 		}
@@ -1280,4 +1343,36 @@ func localLoad(v ssa.Value) bool {
 		al, ok := a.(*ssa.Alloc)
 		return ok && !al.Heap && a != u.X
 	}
+}
+
+// idKey: a comparison of two SSA values (or a value and a constant) identified by the operands themselves; two
+// instructions with the same key compute the same boolean on one pass through the function. "" when not applicable.
+func idKey(cond ssa.Value) string {
+	bo, ok := cond.(*ssa.BinOp)
+	if !ok {
+		return ""
+	}
+	switch bo.Op {
+	case token.EQL, token.NEQ, token.LSS, token.LEQ, token.GTR, token.GEQ:
+	default:
+		return ""
+	}
+	side := func(v ssa.Value) string {
+		if k, ok := v.(*ssa.Const); ok {
+			if k.Value == nil {
+				return "nil"
+			}
+			return "k" + k.Value.ExactString()
+		}
+		switch v.(type) {
+		case *ssa.Call, *ssa.Parameter, *ssa.Phi, *ssa.Extract:
+			return fmt.Sprintf("%p", v)
+		}
+		return "" // loads and computed values: left to the other memos
+	}
+	x, y := side(bo.X), side(bo.Y)
+	if x == "" || y == "" {
+		return ""
+	}
+	return "i:" + x + bo.Op.String() + y
 }
